@@ -6,7 +6,8 @@ pooled tasks (helpers: mc/c15_adapters.py, mc/c15_mts.py):
 1. `adapter-histories` (one task per family and configuration, all 23 families, short-episode
    configurations, Connector/LBF behind MultiToSingleWrapper): **every** operation history up to the
    tier's length bound over
-       gym     {reset(), reset(seed=0|1|2), seed(1), step(a0), step(a1)}            x ctor seeds {0,1}
+       gym     {reset(), reset(seed=1), reset(seed=2), seed(1), step(a0), step(a1)}  x ctor seeds {0,1}
+               (+ reset(seed=0) as a seventh operation up to the bound minus one)
        dm_env  {reset(), step(a0), step(a1)}                                         x ctor keys {None, PRNGKey(1)}
    (a0 = action_spec.generate_value(), a1 = a second in-spec action; histories with a step before
    the first reset are skipped) is executed and compared, operation by operation, with a pure
@@ -24,7 +25,8 @@ pooled tasks (helpers: mc/c15_adapters.py, mc/c15_mts.py):
    coordinate-wise bounds) is converted as the adapter does (`jnp.asarray`) and tested against the
    original jumanji action spec (independent test on all, `spec.validate` on up to 1 500 / 20 000
    per space).  `space.sample()` is never used.
-3. `multi-to-single` (Explorer over tiny Connector / LBF / single-agent configurations): on every
+3. `multi-to-single` (Explorer over tiny Connector / LBF / single-agent configurations and a stub
+   3-agent environment whose per-agent rewards and discounts are pairwise different): on every
    root and edge the wrapper's reset/step equals the native one except for reward/discount, which
    equal the aggregators of the native values, for the default (sum, max) and custom pairs.
 
@@ -69,6 +71,7 @@ def tasks_for(tier: str, seed: int) -> List[Any]:
             continue
         if in_quick or tier != "quick":
             tasks.append(("mc.c15_mts", "run_mts", dict(cfg_name=name, tier=tier, seed=seed, model=f"mts:{name}")))
+    tasks.append(("mc.c15_mts", "run_mts_stub", dict(tier=tier, seed=seed, model="mts:stub")))
     for fam in fams:
         tasks.append(("mc.c15_adapters", "run_action_spaces", dict(family=fam, tier=tier, seed=seed,
                                                                   model=f"action-space:{fam}")))
@@ -81,7 +84,8 @@ def main(tier: str, seed: int) -> int:
     rep = Reporter(PID, tier, seed)
     b = A.BOUNDS[tier]
     rep.assumptions += [
-        f"gym histories: all sequences of length <= {b['gym']} over 7 operations, dm_env: length <= {b['dm']} over 3 "
+        f"gym histories: all sequences of length <= {b['gym']} over 6 operations and of length <= {b['gym'] - 1} over 7 "
+        f"(with reset(seed=0)), dm_env: length <= {b['dm']} over 3 "
         "operations; histories with a step before the first reset are skipped (outside the documented API)",
         "one adapter object per (configuration, constructor seed/key) is reused across histories with _key/_state put "
         f"back to the constructor's values (no other attribute may change); {b['fresh']} gym + {b['fresh']} dm_env "
@@ -100,7 +104,7 @@ def main(tier: str, seed: int) -> int:
         "gym_obs_space_checked", "dm_obs_spec_checked", "dm_first_steps", "dm_mid_steps", "dm_last_steps",
         "dm_resets_after_first_episode", "action_members_checked", "action_spaces_fully_enumerated",
         "aggregations_checked", "mts_edges_compared", "mts_resets_compared", "mts_last_edges",
-        "multi_agent_edges_with_sum_max_mean_all_distinct",
+        "multi_agent_edges_with_sum_max_mean_all_distinct", "multi_agent_edges_with_discount_max_min_sum_all_distinct",
     )
     fams = {m.get("family") for m in rep.coverage["per_model"] if m.get("part") == "adapter-histories"}
     missing = sorted(set(catalog.FAMILIES) - fams)
